@@ -161,7 +161,7 @@ func initHost() {
 		return hostCtxFail["set"]
 	}
 	atypes.JITSenderAspectByContext = func(ctx context.Context, h common.Hash) (common.Address, error) {
-		hostCtxLog = append(hostCtxLog, "jit "+hexHash(h))
+		hostCtxLog = append(hostCtxLog, "jit "+hexBytes(h[:]))
 		if e := hostCtxFail["jit"]; e != nil {
 			return common.Address{}, e
 		}
